@@ -168,6 +168,61 @@ func c18(r *core.Report) {
 	r.Rule("C18-DISTANCE", "LeadingZeros counts 8 bits per byte skipped; DistanceCmp is the byte-wise order of XOR distances", 6)
 	ruleCmpShape(r, "C18-DISTANCE")
 
+	// ---- C18-KEY-OWNED (after seed C18-s7): the cache keys its buckets by the bytes of Entry.Key and reports victims
+	// by that slice. Every entry reaches a bucket through bucket.update, whatever the caller of Cache.Update put in
+	// Entry.Key: update therefore stores a fresh copy of the key (append onto a new empty slice) before put, on
+	// every path, and never replaces it by a slice it was handed.
+	r.Rule("C18-KEY-OWNED", "bucket.update stores a fresh copy of the entry's key before put on every path", 1)
+	if bu, bput := needFn(r, "p/kademlia", "bucket.update"), needFn(r, "p/kademlia", "bucket.put"); bu != nil && bput != nil {
+		r.Analysed(bu)
+		isFresh := func(v ssa.Value) bool {
+			c, ok := core.Peel(v).(*ssa.Call)
+			if !ok || !core.IsBuiltin(c.Common(), "append") || len(c.Call.Args) == 0 {
+				return false
+			}
+			switch b := c.Call.Args[0].(type) {
+			case *ssa.Slice:
+				_, isNew := b.X.(*ssa.Alloc)
+				return isNew && b.X.(*ssa.Alloc).Heap || isNew
+			case *ssa.Const:
+				return b.IsNil()
+			case *ssa.MakeSlice:
+				return true
+			}
+			return false
+		}
+		for _, pc := range core.CallsToFn(bu, bput) {
+			ok := false
+			why := "the entry handed to put does not come from a local entry whose key was copied"
+			if ld, isLd := pc.Common().Args[len(pc.Common().Args)-1].(*ssa.UnOp); isLd {
+				if cell, isA := ld.X.(*ssa.Alloc); isA {
+					dom, allFresh, n := false, true, 0
+					for _, in := range core.AllInstrs(bu) {
+						st, isSt := in.(*ssa.Store)
+						if !isSt {
+							continue
+						}
+						f, base := core.FieldOfAddr(st.Addr)
+						if f == nil || f.Name() != "Key" || base != ssa.Value(cell) {
+							continue
+						}
+						n++
+						if !isFresh(st.Val) {
+							allFresh = false
+						} else if core.InstrDominates(st, pc) {
+							dom = true
+						}
+					}
+					ok = n > 0 && allFresh && dom
+					if !ok {
+						why = "the key of the entry handed to put is not (on every path, and only) a fresh copy: an entry added through Cache.Update shares the caller's key buffer, so a later write to that buffer changes the key the entry is filed, found, evicted and reported under"
+					}
+				}
+			}
+			r.Check(ok, "C18-KEY-OWNED", core.FnName(bu)+" put", p.Pos(pc.Pos()), "the stored entry's key is a fresh copy made in update", why)
+		}
+	}
+
 	// ---- C18-INDEX-PURE: an entry is found again only if its bucket index is a function of (locus, key)
 	// alone: bucketIndex computes the distance in a buffer it allocates itself (zero beyond the shorter
 	// operand) and writes nothing that outlives the call
